@@ -93,8 +93,29 @@ PROPS = {
 }
 
 
+# regression witnesses of the defects repaired in /repo (known_findings.json: fixed); test -> properties
+WITNESS_TESTS = {
+    'TestW_D1': ['C04'], 'TestW_D10_D19': ['C15', 'C18'], 'TestW_D11_D12_D13': ['C17'], 'TestW_D4': ['C05', 'C06', 'C07'],
+    'TestW_D5_D6': ['C05', 'C08'], 'TestW_D7_D8': ['C10', 'C14', 'C13', 'C15', 'C09'], 'TestW_D2_D3': ['C01', 'C02', 'C04'],
+    'TestW_D9': ['C02', 'C09'], 'TestW_D26': ['C04', 'C17'], 'TestW_D27_ChildDisposalErrorReachesParent': ['C12'],
+}
+WITNESS_STREAM = dict(
+    name='witness', pkg='', files=['harness/witness/vw_fixed_test.go', 'harness/witness/vw_d26_test.go', 'harness/witness/vw_d27_test.go'],
+    test='TestW_', gotests=WITNESS_TESTS, model=False, seeded=False, replayable=False, new_marker='#',
+    rule='witness tests of the defects repaired by fix: commits, re-run on every check',
+)
+GRAPH_WITNESS_STREAM = dict(
+    name='witness-graph', pkg='internal/graph', files=['harness/witness/graph_vw_fixed_test.go'],
+    test='TestW_', gotests={'TestW_D14': ['C19', 'C06']}, model=False, seeded=False, replayable=False, new_marker='#',
+    rule='witness tests of the graph defects repaired by fix: commits',
+)
+
 for _p in CONTAINER_PROPS:
-    PROPS[_p] = dict(streams=[CORE_STREAM])
+    PROPS[_p] = dict(streams=[CORE_STREAM, WITNESS_STREAM])
+for _p in ('C05', 'C06', 'C17'):
+    PROPS[_p]['streams'] = PROPS[_p]['streams'] + [WITNESS_STREAM]
+for _p in ('C19', 'C06'):
+    PROPS[_p]['streams'] = PROPS[_p]['streams'] + [GRAPH_WITNESS_STREAM]
 
 
 def streams(prop):
